@@ -67,6 +67,15 @@ UNIT_TOL = 32
 # clean tree: <= 17 eps·D over N 24..200, both dtypes, |x|/spacing 0..1e5); exact recovery to ICP_REC_K·eps·D (clean: <= 18)
 ICP_DELTA_K = 64
 ICP_REC_K = 256
+
+
+def cloud_cond(src64: torch.Tensor) -> float:
+    """conditioning of a rigid alignment of this cloud: λ1 / (λ2 + λ3) of its scatter matrix (the margin of `svdtf_optimum_unique` for a
+    rigid image of the cloud), between 1 and 1e3: a 3-point or thin cloud determines its pose less accurately than a round one"""
+    c = src64.double() - src64.double().mean(0)
+    lam = torch.linalg.svdvals(c.T @ c)
+    g = float(lam[1] + lam[2])
+    return 1.0 if g <= 0 else min(1e3, max(1.0, float(lam[0]) / g))
 RATIOS: dict = {}
 torch.set_num_threads(1)   # tiny tensors: OpenMP fan-out only costs time on a shared machine
 
@@ -258,7 +267,7 @@ def oracle_item(ctx: Ctx, case, idx, X, src, tgt, truth, eps):
     if fn == "svdstf" and not (float(X[7]) > 0 and math.isfinite(float(X[7]))):
         ctx.fail(cid, f"valid: svdstf scale {float(X[7])!r} is not a positive finite number")
         return False
-    if fn == "svdstf" and not case["with_scale"] and abs(float(X[7]) - 1) > 16 * eps:
+    if fn == "svdstf" and not case["with_scale"] and not (abs(float(X[7]) - 1) <= 16 * eps):
         ctx.fail(cid, f"noscale: svdstf(with_scale=False) returned scale {float(X[7])!r}")
         ok = False
     if not torch.isfinite(X).all():
@@ -502,6 +511,14 @@ def mixed_and_stale(ctx: Ctx, case, src_t, tgt_t, S64, T64, Xf, eps) -> bool:
     Xr, e2 = _safe_align(case, new_src, new_tgt)
     ctx.count("align.stale-read")
     if (e1 is None) != (e2 is None):
+        degenerate = False
+        for i in range(nb):
+            st_ = U.stats(new_src.double().reshape(nb, -1, 3)[i], new_tgt.double().reshape(nb, -1, 3)[i])
+            if st_["ss"] <= 1e4 * eps * st_["Ds"] or st_["st"] <= 1e4 * eps * st_["Dt"]:
+                degenerate = True       # the cloud is a handful of quantisation levels wide: a check=True threshold decides, either way is fine
+        if degenerate:
+            ctx.count("align.stale-read.raise-at-threshold-skipped")
+            return ok
         ctx.fail(case, f"stale: after an in-place update of its arguments {fn} {'raises' if e1 else 'returns'} while a fresh call on the "
                        f"same values {'raises' if e2 else 'returns'} ({type(e1 or e2).__name__})")
         return False
@@ -633,20 +650,36 @@ def check_align_gen(ctx: Ctx, case, use_model=True):
                        f"for batch {batch} dtype {dtype}")
         return False
     Xf = X.tensor().detach().double().reshape(nb, dim).clone()
-    if case.get("extras"):
-        ok = align_extras(ctx, case, src_t, tgt_t, X, S64, T64, eps) and ok
-    ok = mixed_and_stale(ctx, case, src_t, tgt_t, S64, T64, Xf, eps) and ok
-    # exact cost of the implementation's transform (model arithmetic)
-    lines2 = []
+    # (38) every value the real code returns is tested for finiteness BEFORE it goes to the model or into a comparison: a NaN / inf
+    # for a finite valid input is a failure of the property on that input ("returns a proper rigid / similarity transform")
+    finite = torch.isfinite(Xf).all(-1)
+    for i in (~finite).nonzero().flatten().tolist():
+        it = case["items"][i]
+        ctx.fail(dict(case, item=i), f"valid: {fn} returns non-finite numbers {[round(v, 6) if math.isfinite(v) else str(v) for v in Xf[i].tolist()]} for finite "
+                                     f"valid clouds (item {i} of batch {list(batch)}, N={N}, {dtype}, cloud={it['cloud']}, rotation={it['qkind']}"
+                                     f"{'#%d' % it['rot_index'] if 'rot_index' in it else ''}, scale={it['scale']}, noise={it['noise']})")
+        ok = False
+    if bool(finite.all()):
+        if case.get("extras"):
+            ok = align_extras(ctx, case, src_t, tgt_t, X, S64, T64, eps) and ok
+        ok = mixed_and_stale(ctx, case, src_t, tgt_t, S64, T64, Xf, eps) and ok
+    # exact cost of the implementation's transform (model arithmetic) — finite items only
+    lines2, slot = [], {}
     for i in range(nb):
+        if not bool(finite[i]):
+            continue
         pts = common.wire_list(S64[i if case["bcast"] != "src1" else 0].flatten().tolist()) + " " + common.wire_list(T64[i].flatten().tolist())
+        slot[i] = len(lines2)
         lines2.append(f"c17.cost{dim} {N} {common.wire_list(Xf[i].tolist())} {pts}")
-    reps2 = (yield lines2) if use_model and bool(torch.isfinite(Xf).all()) else [None] * nb
+    got2 = (yield lines2) if use_model and lines2 else []
+    reps2 = [got2[slot[i]] if (i in slot and got2) else None for i in range(nb)]
     for i in range(nb):
         src = S64[i if case["bcast"] != "src1" else 0]
         tgt = T64[i]
         it = case["items"][i]
         st = U.stats(src, tgt)
+        if not bool(finite[i]):
+            continue
         ok = oracle_item(ctx, case, i, Xf[i], src, tgt, truths[i], eps) and ok
         if model[i] is None or reps2[i] is None or st["A"] == 0 or st["B"] == 0:
             continue
@@ -834,6 +867,19 @@ def corner_cases(r: random.Random):
         c = build_case(fixed, fn, 6, "float64", (3,), "none", corners=[dict(Z, cloud="generic", qkind="uniform", **sc)], tag="corner-overlap")
         c["layout"] = ["overlap", "overlap"]
         out.append(c)
+    # lesson (38b): all 24 rotations of the cube (signed permutation matrices: axis quarter / half turns, half turns about face
+    # diagonals, 120° turns about body diagonals) applied to exactly representable symmetric point sets and to random clouds — the
+    # estimated R has exactly equal / zero entries there, which is where the branch selection of the matrix→quaternion conversion ties
+    for fn in ("svdtf", "svdstf"):
+        sc = {"scale": 2.0} if fn == "svdstf" else {}
+        for cloud, N_, dtn in (("cube", 8, "float64"), ("octa", 6, "float64"), ("grid", 9, "float64"), ("triangle", 3, "float64"),
+                               ("generic", 7, "float64"), ("cube", 8, "float32"), ("triangle", 3, "float32")):
+            out.append(build_case(fixed, fn, N_, dtn, (24,), "none",
+                                  corners=[dict(Z, cloud=cloud, qkind="quarter", rot_index=k_, tmag=float(k_ % 3), **sc) for k_ in range(24)],
+                                  tag="corner-cube-rotations"))
+        for k_ in (3, 7, 11, 16, 20, 23):       # unbatched calls as well
+            out.append(build_case(fixed, fn, 3, "float64", (), "none", corners=[dict(Z, cloud="triangle", qkind="quarter", rot_index=k_, tmag=1.0, **sc)],
+                                  tag="corner-cube-rotations"))
     # svdstf: the whole scale range of the quantifier and beyond, without scale, default argument
     out.append(build_case(fixed, "svdstf", 8, "float64", (7,), "none", corners=[dict(Z, cloud="generic", qkind="uniform", scale=s) for s in
                                                                             (0.1, 10.0, 1e-3, 1e3, 0.5, 3.0, 1.0)], tag="corner-scale-ladder"))
@@ -1081,12 +1127,12 @@ def check_icp_gen(ctx: Ctx, spec, use_model=True):
             ok = False
         X = Xall[0]
         nq = float(X[3:7].norm())
-        if not torch.isfinite(X).all() or abs(nq - 1) > UNIT_TOL * eps:
+        if not torch.isfinite(X).all() or not (abs(nq - 1) <= UNIT_TOL * eps):
             ctx.fail(case, f"valid: ICP result is not a valid SE3 element (|q|={nq!r})")
             return False
         En = U.mscd(U.apply_vec(X, S64), T64)
         # the returned points are accurate to delta; a squared distance d² then moves by at most 2·delta·d + delta²
-        delta = ICP_DELTA_K * eps * D
+        delta = ICP_DELTA_K * eps * D * cloud_cond(S64)
         tolE = delta * delta + 2 * delta * math.sqrt(E0) + 64 * eps * E0 + 1e-300
         if not (En <= E0 + tolE):
             ctx.fail(case, f"monotone: ICP result has mean squared closest-point distance {En:.6e} > {E0:.6e} of its initial transform "
@@ -1101,7 +1147,7 @@ def check_icp_gen(ctx: Ctx, spec, use_model=True):
         if n == 0:
             # zero passes: the result must act like the initial transform on the source points
             d0 = float((U.apply_vec(X, S64) - cur0).abs().max())
-            if d0 > 256 * eps * D:
+            if not (d0 <= 256 * eps * D):
                 ctx.fail(case, f"init: with zero passes the result differs from the initial transform on the source points by {d0:.3e}")
                 ok = False
     # recovery inside the basin: exact rigid motion, displacement below half the point separation, enough passes
@@ -1111,7 +1157,7 @@ def check_icp_gen(ctx: Ctx, spec, use_model=True):
     if spec.get("inside") and (passes_done is None or passes_done >= 1):
         want = U.apply_vec(torch.tensor(truth["t"] + truth["q"], dtype=torch.float64), S64)
         res = float((U.apply_vec(X, S64) - want).abs().max())
-        tolr = ICP_REC_K * eps * D
+        tolr = ICP_REC_K * eps * D * cloud_cond(S64)
         ctx.count("icp.recovery")
         track(f"icp.recover.{dtype}", res, tolr)
         if not (res <= tolr):
@@ -1138,11 +1184,11 @@ def check_icp_gen(ctx: Ctx, spec, use_model=True):
             ctx.count("icp.model")
             # errors handed to the stepper
             for j, (a, b) in enumerate(zip([float(s.reshape(-1)[0]) for s in seen], merrs)):
-                if abs(a - b) > 256 * eps * D * (j + 1):
+                if not (abs(a - b) <= 256 * eps * D * (j + 1)):
                     ctx.disagree("icp.errors", case, f"error handed to the stepper at pass {j}: implementation {a!r} model {b!r}")
                     ok = False
                     break
-            if abs(En - mres / len(src)) > 1024 * eps * (D * math.sqrt(En) + En + eps * D * D) * (passes_done + 1) + 1e-300:
+            if not (abs(En - mres / len(src)) <= 1024 * eps * (D * math.sqrt(En) + En + eps * D * D) * (passes_done + 1) + 1e-300):
                 ctx.disagree("icp.objective", case, f"mean squared closest-point distance of the result: implementation {En!r} model {mres / len(src)!r}")
                 ok = False
             for a, b in zip(msscd, msscd[1:]):
@@ -1517,7 +1563,7 @@ def check_icp_history(ctx: Ctx, hs) -> bool:
                     continue
                 cur0 = S64[b] if eff is None else U.apply_vec(eff.tensor().detach().double().reshape(-1), S64[b])
                 E0, En = U.mscd(cur0, T64[b]), U.mscd(U.apply_vec(O[b], S64[b]), T64[b])
-                D = float(max(S64[b].abs().max(), T64[b].abs().max()))
+                D = float(max(S64[b].abs().max(), T64[b].abs().max())) * cloud_cond(S64[b])
                 delta = ICP_DELTA_K * eps * D
                 if not (En <= E0 + delta * delta + 2 * delta * math.sqrt(E0) + 64 * eps * E0):
                     ctx.fail(case, f"monotone: item {b} of call {ci}: mean squared closest-point distance {En:.6e} > {E0:.6e} of its initial transform "
@@ -1975,7 +2021,7 @@ def icp_lifecycle(ctx: Ctx, ls):
                     c0 = S64_[bi] if eff_ is None else U.apply_vec(eff_, S64_[bi])
                     want_e = float(ord_norm(c0.unsqueeze(1) - T64_[bi].unsqueeze(0), 2 if o is None else o).min(-1).values.mean())
                     De = float(max(S64_[bi].abs().max(), T64_[bi].abs().max()))
-                    if e0.numel() == S64_.shape[0] and abs(float(e0[bi]) - want_e) > 256 * eps * De:
+                    if e0.numel() == S64_.shape[0] and not (abs(float(e0[bi]) - want_e) <= 256 * eps * De):
                         ctx.fail(case, f"keyword: with ord={o} the first error handed to the stepper is {float(e0[bi])!r}, the mean ord-distance to the "
                                        f"nearest target is {want_e!r} (step {step}, item {bi}, batch {bshape})")
                         ok = False
@@ -1987,12 +2033,12 @@ def icp_lifecycle(ctx: Ctx, ls):
         eff = raw(fwd).double().reshape(-1) if fwd is not None else (md["exp"].double().reshape(-1) if md["exp"] is not None else None)
         oo = 2 if o is None else o
         for b in range(O.shape[0]):
-            if not torch.isfinite(O[b]).all() or abs(float(O[b, 3:7].norm()) - 1) > UNIT_TOL * eps:
+            if not torch.isfinite(O[b]).all() or not (abs(float(O[b, 3:7].norm()) - 1) <= UNIT_TOL * eps):
                 ctx.fail(case, f"valid: ICP result is not a valid SE3 element (step {step}, item {b}, batch {bshape})")
                 ok = False
                 continue
             cur0 = S64[b] if eff is None else U.apply_vec(eff, S64[b])
-            D = float(max(S64[b].abs().max(), T64[b].abs().max()))
+            D = float(max(S64[b].abs().max(), T64[b].abs().max())) * cloud_cond(S64[b])
             delta = ICP_DELTA_K * eps * D
             if oo == 2:
                 E0, En = U.mscd(cur0, T64[b]), U.mscd(U.apply_vec(O[b], S64[b]), T64[b])
@@ -2324,6 +2370,11 @@ def check_epnp_scale_gen(ctx: Ctx, spec):
             ctx.count("epnp_scale.sign-at-threshold-skipped")
             continue
         ctx.count("epnp_scale.items")
+        if not (bool(torch.isfinite(ob[b]).all()) and bool(torch.isfinite(op[b]).all()) and math.isfinite(float(os_[b]))):
+            ctx.fail(cid, f"valid: EPnP._compute_scale returns non-finite numbers (scale {float(os_[b])!r}) for finite valid input "
+                          f"(item {b} of lead {lead}, N={N}, {spec['dtype']}, factor {it.get('lam')!r})")
+            ok = False
+            continue
         es = abs(float(os_[b]) - ms) / max(abs(ms), 1e-300)
         ep = max(abs(a - c_) for a, c_ in zip(op[b].flatten().tolist(), mp_)) / D
         eb = max(abs(a - c_) for a, c_ in zip(ob[b].tolist(), mb)) / max(max(abs(v) for v in mb), 1e-300)
@@ -2631,7 +2682,7 @@ def check_large(ctx: Ctx, spec):
                 tol = cost_tol(eps, st, sc, cent) + 64 * common.EPS["float64"] * (st["A"] * sc * sc + st["B"])
                 best = min([cost_srt(s_, R_, t_, s64, t64) for s_, R_, t_ in sign_candidates(s64, t64, what == "svdstf" and spec.get("with_scale", True))] or [ci])
                 nq = float(flatX[i][3:7].double().norm())
-                if abs(nq - 1) > UNIT_TOL * eps or not (ci <= best + tol):
+                if not (abs(nq - 1) <= UNIT_TOL * eps) or not (ci <= best + tol):
                     ctx.fail(dict(case, item=i), f"optimality: item {i} of {B} of a batched {what} call: |q| = {nq!r}, sum of squared residuals {ci:.6e}, "
                                                  f"best proper sign choice of an independent float64 SVD {best:.6e} (allowance {tol:.2e})")
                     ok = False
@@ -2655,9 +2706,7 @@ def check_large(ctx: Ctx, spec):
 def run_large(ctx: Ctx):
     specs = [{"kind": "large", "what": "svdtf", "shape": [65537], "N": 3, "dtype": "float32", "seed": 11},
              {"kind": "large", "what": "svdtf", "shape": [16385], "N": 4, "dtype": "float64", "seed": 12},
-             {"kind": "large", "what": "svdtf", "shape": [257, 255], "N": 3, "dtype": "float64", "seed": 13},
-             {"kind": "large", "what": "svdstf", "shape": [65537], "N": 4, "dtype": "float64", "seed": 14},
-             {"kind": "large", "what": "svdstf", "shape": [16383, 2], "N": 3, "dtype": "float32", "seed": 15},
+             {"kind": "large", "what": "svdstf", "shape": [32769], "N": 4, "dtype": "float64", "seed": 14},
              {"kind": "large", "what": "svdstf", "shape": [16385], "N": 5, "dtype": "float32", "seed": 16, "with_scale": False},
              {"kind": "large", "what": "svdtf", "shape": [131073], "N": 3, "dtype": "float32", "seed": 21, "cuts": [131072 - 37]},
              {"kind": "large", "what": "ICP", "shape": [4097], "N": 5, "dtype": "float32", "seed": 17, "passes": 2},
@@ -2665,7 +2714,10 @@ def run_large(ctx: Ctx):
              {"kind": "large", "what": "EPnP", "shape": [1025], "N": 6, "dtype": "float64", "seed": 19},
              {"kind": "large", "what": "EPnP", "shape": [257], "N": 12, "dtype": "float64", "seed": 20}]
     if not ctx.quick:
-        specs += [{"kind": "large", "what": "svdtf", "shape": [2 ** 18 + 1], "N": 3, "dtype": "float64", "seed": 22, "cuts": [2 ** 18]},
+        specs += [{"kind": "large", "what": "svdstf", "shape": [65537], "N": 4, "dtype": "float64", "seed": 27},
+                  {"kind": "large", "what": "svdtf", "shape": [257, 255], "N": 3, "dtype": "float64", "seed": 13},
+                  {"kind": "large", "what": "svdstf", "shape": [16383, 2], "N": 3, "dtype": "float32", "seed": 15},
+                  {"kind": "large", "what": "svdtf", "shape": [2 ** 18 + 1], "N": 3, "dtype": "float64", "seed": 22, "cuts": [2 ** 18]},
                   {"kind": "large", "what": "svdstf", "shape": [2 ** 18 + 37], "N": 3, "dtype": "float32", "seed": 23, "cuts": [2 ** 17 + 5]},
                   {"kind": "large", "what": "svdtf", "shape": [2 ** 20 + 1], "N": 3, "dtype": "float32", "seed": 24, "cuts": [2 ** 20]},
                   {"kind": "large", "what": "svdstf", "shape": [2 ** 20 + 1], "N": 3, "dtype": "float64", "seed": 25, "cuts": [2 ** 19 + 3]},
@@ -3029,7 +3081,7 @@ def check_round5(ctx: Ctx, seed: int) -> bool:
             ctx.count("round5.dtype.accepted")
             t_ = raw(X)
             if type(X).__name__ != "LieTensor" or not t_.is_floating_point() or not torch.isfinite(t_.double()).all() or \
-                    abs(float(t_[..., 3:7].double().norm()) - 1) > 1e-2:
+                    not (abs(float(t_[..., 3:7].double().norm()) - 1) <= 1e-2):
                 ctx.fail(case, f"dtype: {name} accepts {dt} operands and returns {type(X).__name__} of dtype {getattr(X, 'dtype', None)} that is not a "
                                f"valid floating-point transform")
                 ok = False
@@ -3158,16 +3210,25 @@ def check_round5(ctx: Ctx, seed: int) -> bool:
         moved = U.apply_vec(raw(out).double(), src)
         D = float(tgt.abs().max())
         best = float("inf")
-        for mask in range(2 ** N):
-            sel = torch.stack([tgt[i] if not (mask >> i) & 1 else tgt[N + i] for i in range(N)])
+        # admissible tie-breaks: for every source point ALL targets at exactly the minimal distance (the coordinates are multiples of
+        # 0.25, squared distances are exact; a point may also coincide with another point's target)
+        d2 = ((src.unsqueeze(1) - tgt.unsqueeze(0)) ** 2).sum(-1)
+        choices = [(d2[i] == d2[i].min()).nonzero().flatten().tolist() for i in range(N)]
+        import itertools
+        nch = 0
+        for pick in itertools.product(*choices):
+            nch += 1
+            sel = tgt[list(pick)]
             ref = _kabsch64(src, sel)
             if ref is None:
                 continue
-            best = min(best, float((src @ ref[1].T + ref[2] - moved).abs().max()))
+            # the claim "one pass = an optimal alignment to the chosen nearest targets" in terms of the cost (the optimal transform itself need
+            # not be unique: three matched targets may be collinear or coincide)
+            best = min(best, float(((moved - sel) ** 2).sum()) - ref[0])
         ctx.count("round5.tie-breaks")
-        if not (best <= 1024 * eps * D):
-            ctx.fail(case, f"ties: with every source point exactly midway between two targets, one ICP pass matches none of the {2 ** N} admissible "
-                           f"nearest-neighbour choices (closest: {best:.3e} on the source points, allowance {1024 * eps * D:.2e}; {dtn})")
+        if not (best <= 4096 * eps * D * D):
+            ctx.fail(case, f"ties: with every source point exactly equidistant from at least two targets, one ICP pass is an optimal alignment for none of "
+                           f"the {nch} admissible nearest-neighbour choices (smallest excess cost {best:.3e}, allowance {4096 * eps * D * D:.2e}; {dtn})")
             ok = False
 
     # ---- (37) every non-empty subset of the operands requiring grad, through backward() and autograd.grad, against central differences
@@ -3216,7 +3277,7 @@ def check_round5(ctx: Ctx, seed: int) -> bool:
                     if not need:
                         continue
                     scale_ = float(nums[k_].abs().max()) + 1e-12
-                    if gcalc is None or not torch.isfinite(gcalc).all() or float((gcalc - nums[k_]).abs().max()) > 1e-5 * scale_ + 1e-7:
+                    if gcalc is None or not torch.isfinite(gcalc).all() or not (float((gcalc - nums[k_]).abs().max()) <= 1e-5 * scale_ + 1e-7):
                         err = float("nan") if gcalc is None else float((gcalc - nums[k_]).abs().max())
                         ctx.fail(case, f"backward: gradient of {name} w.r.t. its {'source' if k_ == 0 else 'target'} cloud (requires_grad = {subset}, via {via}) is "
                                        f"{'None' if gcalc is None else 'off by %.3e' % err} against central differences of size {scale_:.3e}")
@@ -3235,27 +3296,92 @@ def run_round5(ctx: Ctx, n: int):
         check_round5(ctx, sd)
 
 
+
+# ----------------------------------------------------------------------------- lesson (38): cube rotations through ICP and EPnP
+
+def check_cube_rotations(ctx: Ctx) -> bool:
+    """ICP started from an exact cube rotation (its final `svdtf(source, temporal)` must reproduce it: the estimated rotation matrix
+    has exactly tied entries) and EPnP poses whose rotation is a cube rotation; every result is tested for finiteness first"""
+    P = pp()
+    r = random.Random(3838)
+    ok = True
+    for dtn in ("float64", "float32"):
+        dt = getattr(torch, dtn)
+        eps = common.EPS[dtn]
+        for cloud in ("cube", "generic", "triangle"):
+            pts = U.gen_cloud(r, {"cube": 8, "generic": 7, "triangle": 3}[cloud], cloud, 1.0, False, 0.0)
+            src = torch.tensor(pts, dtype=torch.float64)
+            for k_, R in enumerate(U.CUBE24):
+                Rm = torch.tensor(R, dtype=torch.float64)
+                t = torch.tensor([float(k_ % 3), -1.0, 0.5], dtype=torch.float64)
+                tgt = src @ Rm.T + t
+                init = P.SE3(torch.tensor(t.tolist() + U.mat_to_q(R), dtype=torch.float64).to(dt))
+                case = {"kind": "cube_rot", "what": "ICP", "dtype": dtn, "cloud": cloud, "rot_index": k_}
+                for stp in (FixedStepper(1), None):
+                    try:
+                        with warnings.catch_warnings():
+                            warnings.simplefilter("ignore")
+                            m = P.module.ICP(init=init, stepper=stp) if stp is not None else P.module.ICP(init=init)
+                            out = m(src.to(dt), tgt.to(dt))
+                    except Exception as ex:  # noqa: BLE001
+                        ctx.fail(case, f"raises: ICP raises {type(ex).__name__}: {str(ex)[:100]} when started from cube rotation #{k_} ({cloud}, {dtn})")
+                        ok = False
+                        continue
+                    ctx.count("cube_rot.icp")
+                    O = raw(out).double()
+                    if not torch.isfinite(O).all():
+                        ctx.fail(case, f"valid: ICP returns non-finite numbers {O.tolist()} for a finite valid problem: {cloud} cloud, target = cube rotation "
+                                       f"#{k_} of the source + shift, init = that motion ({dtn})")
+                        ok = False
+                        continue
+                    res = float((U.apply_vec(O, src) - tgt).abs().max())
+                    D = float(tgt.abs().max())
+                    if not (res <= ICP_REC_K * eps * D):
+                        ctx.fail(case, f"recover: ICP started from the exact motion (cube rotation #{k_}, {cloud}, {dtn}) misses it by {res:.3e} > {ICP_REC_K * eps * D:.2e}")
+                        ok = False
+    K = torch.tensor([[500.0, 0.0, 320.0], [0.0, 480.0, 240.0], [0.0, 0.0, 1.0]], dtype=torch.float64)
+    pts = torch.tensor([[r.gauss(0, 1) for _ in range(3)] for _ in range(9)], dtype=torch.float64)
+    for k_, R in enumerate(U.CUBE24):
+        T = P.SE3(torch.tensor([0.2, -0.1, 7.0] + U.mat_to_q(R), dtype=torch.float64))
+        pix = P.point2pixel(pts, K, T)
+        for refine in (False, True):
+            case = {"kind": "cube_rot", "what": "EPnP", "rot_index": k_, "refine": refine, "N": 9, "depth": 3.0, "aniso": 1.0, "f": 500.0}
+            try:
+                with warnings.catch_warnings():
+                    warnings.simplefilter("ignore")
+                    est = P.module.EPnP(K, refine=refine)(pts, pix)
+            except Exception as ex:  # noqa: BLE001
+                ctx.fail(case, f"raises: EPnP raises {type(ex).__name__}: {str(ex)[:100]} for a pose whose rotation is cube rotation #{k_}")
+                ok = False
+                continue
+            ctx.count("cube_rot.epnp")
+            ok = epnp_compare(ctx, case, est, T, pts, pix, K) and ok
+    return ok
+
+
 # ----------------------------------------------------------------------------- entry points
 
 def run(ctx: Ctx):
     rng = ctx.rng
     cases = corner_cases(rng)
-    for c in cases:
-        c["extras"] = True
-    n = ctx.pick(300, 5500)
+    for i_, c in enumerate(cases):       # the spelling / grad-mode / ownership extras on every second corner case (they are structure-, not data-dependent)
+        c["extras"] = (i_ % 2 == 0 and c.get("tag") != "corner-cube-rotations") or (c.get("tag") == "corner-cube-rotations" and c["N"] == 3 and c["dtype"] == "float64")
+    n = ctx.pick(170, 3000)
     cases += [random_align_case(rng) for _ in range(n)]
     run_align(ctx, cases)
-    specs = icp_corner_specs() + [random_icp_spec(rng) for _ in range(ctx.pick(50, 1500))]
+    specs = icp_corner_specs() + [random_icp_spec(rng) for _ in range(ctx.pick(25, 1000))]
     run_icp(ctx, specs)
-    especs = epnp_corner_specs() + [epnp_spec(rng) for _ in range(ctx.pick(60, 3000))]
-    run_icp_kernel(ctx, ctx.pick(30, 1200))
+    especs = epnp_corner_specs() + [epnp_spec(rng) for _ in range(ctx.pick(45, 2000))]
+    run_icp_kernel(ctx, ctx.pick(20, 800))
     run_large(ctx)
-    run_round4(ctx, ctx.pick(1, 40))
-    run_round5(ctx, ctx.pick(1, 30))
+    run_round4(ctx, ctx.pick(0, 25))
+    run_round5(ctx, ctx.pick(0, 15))
+    ctx.note_case(("cube_rot",), True)
+    check_cube_rotations(ctx)
     run_epnp(ctx, especs)
-    run_epnp_scale(ctx, ctx.pick(40, 1500))
-    run_histories(ctx, ctx.pick(6, 70), ctx.pick(5, 60))
-    run_lifecycles(ctx, ctx.pick(6, 70), ctx.pick(5, 60))
+    run_epnp_scale(ctx, ctx.pick(25, 800))
+    run_histories(ctx, ctx.pick(3, 50), ctx.pick(2, 40))
+    run_lifecycles(ctx, ctx.pick(3, 50), ctx.pick(3, 40))
     ctx.notes.append("largest error/tolerance ratios: " + ", ".join(f"{k}={v:.3g}" for k, v in sorted(RATIOS.items())))
 
 
@@ -3295,6 +3421,8 @@ def replay(ctx: Ctx, case) -> bool:
         c.pop("kind")
         c.pop("call", None)
         check_epnp_case(ctx, c)
+    elif kind == "cube_rot":
+        check_cube_rotations(ctx)
     elif kind == "round5":
         check_round5(ctx, c["seed"])
     elif kind == "round4":
